@@ -17,7 +17,7 @@ func init() {
 	Register(&Profile{Name: "crash-corrupt", Prop: "C13", Weight: 10, Quick: 40000, Thorough: 1000000, Sweep: c13SweepCount, Fn: crashCorrupt})
 	SetMeta("C13", &Meta{
 		Level: "fault_enumeration",
-		Rule:  "deterministic sweep over fixed small PAR2 and PAR1 sets: every packet boundary / header field of every archive file x {truncate at, inside header, inside body; flip MSB/LSB of first and last byte of each field (thorough: every bit of every header byte, every truncation offset)}, deletion of each file and of all recovery files, emptied and garbage files, and crash during Create at every write with the last write torn at every packet boundary; each with the data intact and with one data file lost; plus seeded runs with structure-aware random faults on random sets. A case is non-trivial when the fault changed an archive or data file (or Create was crashed) and Verify and Repair were both run on the result; distinct by (format, faulted file role, fault kind, placement class, data state, outcome of Verify and of Repair).",
+		Rule:  "deterministic sweep over fixed small PAR2 and PAR1 sets: every packet boundary / header field of every archive file x {truncate at, inside header, inside body; flip MSB/LSB of first and last byte of each field (thorough: every bit of every header byte, every truncation offset)}, deletion of each file and of all recovery files, emptied and garbage files, and crash during Create at every write with the last write torn at every packet boundary; each with the data intact and with one data file lost; plus seeded runs with structure-aware random faults on random sets. A case is non-trivial when the fault changed an archive or data file (or Create was crashed) and Verify and Repair were both run on the result; distinct by (format, faulted file role, fault kind, placement class, data state, outcome of Verify and of Repair). The seeded part also overwrites a recovery file with a sibling recovery file or the index (valid bytes in the wrong place). corrupt-real: data-file damage with the production file layer on a tmpfs directory; oracles as for the simulated disk (counts truthful, only exact originals written, success means restored).",
 		Assumptions: []string{
 			"sweep sets are fixed small sets (2-3 files); the seeded part varies sets",
 			"'truthful' is judged by the reference reader (intact recovery packets per the PAR 2.0 framing and MD5) and the slice-occurrence scanner; for PAR1 by byte comparison with what Create wrote",
